@@ -19,7 +19,8 @@ open MxModel.Exec
 
 def withFlags (env : Env) (c : CellId → Bool) : Env := { env with cached := c }
 
-theorem denoteBody_congr (env env' : Env) (f : Node → Res × Bool) (hr : env'.refs = env.refs) :
+theorem denoteBody_congr (env env' : Env) (f : Node → Res × Bool) (hr : env'.refs = env.refs)
+    (ha : env'.alive = env.alive) :
     ∀ p : Prog, denoteBody env' f p = denoteBody env f p := by
   intro p
   induction p with
@@ -27,7 +28,7 @@ theorem denoteBody_congr (env env' : Env) (f : Node → Res × Bool) (hr : env'.
   | raise e => rfl
   | reraise e => rfl
   | read a r k ih => simp only [denoteBody, hr]; exact ih _
-  | call n k ih => simp only [denoteBody, ih]
+  | call n k ih => simp only [denoteBody, calleeAt, ha, ih]
 
 /-- **Switching any subset of cells between cached and uncached changes no value**
 (specification level; no inputs, `None` allowed). -/
@@ -46,7 +47,7 @@ theorem flags_irrelevant_to_values (env : Env) (c : CellId → Bool)
     have h2 : (if env.cached n.1 = true then (none : Option Val) else none) = none := by split <;> rfl
     rw [h1, h2]
     simp only []
-    rw [denoteBody_congr env (withFlags env c) _ rfl]
+    rw [denoteBody_congr env (withFlags env c) _ rfl rfl]
     have hck : ∀ r, checkNone (withFlags env c) n.1 r = checkNone env n.1 r := by
       intro r
       unfold checkNone withFlags
@@ -80,12 +81,13 @@ theorem uncached_holds_nothing (env : Env) (lt : Node → Node → Prop) (ho : S
 /-- **…and are re-executed on every call**: a call of an uncached cells always reaches the
 formula evaluator, whatever the cache holds; its arguments are never looked up.  (`keepExc`: when
 the call returns, the caller's exception identity is what it was – bookkeeping of C17 that no value,
-graph or cache field depends on.) -/
+graph or cache field depends on.  `ha`: the cells exists – the name of a deleted cells is not
+bound, the call fails in the caller.) -/
 theorem uncached_always_executes (env : Env) (ef : Node → St → Res × St) (n : Node) (s : St)
-    (hc : env.cached n.1 = false) :
+    (ha : env.alive n.1 = true) (hc : env.cached n.1 = false) :
     evalNode env ef n s = keepExc s (ef n s) ∧ (evalNode env ef n s).1 = (ef n s).1 ∧
     (evalNode env ef n s).2.data = (ef n s).2.data ∧ (evalNode env ef n s).2.log = (ef n s).2.log := by
-  have : evalNode env ef n s = keepExc s (ef n s) := by unfold evalNode; simp [hc]
+  have : evalNode env ef n s = keepExc s (ef n s) := by unfold evalNode; simp [ha, hc]
   rw [this]
   exact ⟨rfl, keepExc_fst s _, (keepExc_excOnly s _).data, (keepExc_excOnly s _).log⟩
 
